@@ -64,6 +64,19 @@ type headerSchemaProperty struct {
 	Properties map[string]headerSchemaProperty `json:"properties,omitempty"`
 }
 
+// UnmarshalJSON accepts the boolean form of a subschema (true: anything is
+// valid, what schema inference emits for an `any` field; false: nothing is),
+// which carries no annotations. Without it one such property would make the
+// whole schema undecodable.
+func (p *headerSchemaProperty) UnmarshalJSON(data []byte) error {
+	if b := strings.TrimSpace(string(data)); b == "true" || b == "false" {
+		*p = headerSchemaProperty{}
+		return nil
+	}
+	type plain headerSchemaProperty
+	return internaljson.Unmarshal(data, (*plain)(p))
+}
+
 // unmarshalSchemaProperties normalizes any InputSchema type
 // (*jsonschema.Schema, map[string]any, or json.RawMessage) into a common
 // representation by marshaling to JSON and unmarshaling only the fields we need.
